@@ -1,7 +1,7 @@
 (* C15 -- Injected out-of-memory hits exactly the designated allocations.
    Only statements; every proof is `exact <lemma>` into C15_Proofs.v. *)
 From Coq Require Import ZArith NArith Bool List.
-From CppUVerif Require Import lib.Str C15_Model C15_Proofs C15_Release.
+From CppUVerif Require Import lib.Str C15_Model C15_Proofs C15_InTest C15_Release.
 Import ListNotations.
 Local Open Scope Z_scope.
 
@@ -146,6 +146,53 @@ Print Assumptions C15_rel_clear_restores.
 Theorem C15_release_old_refuted : ~ release_old_stmt.
 Proof. exact release_old_refuted. Qed.
 Print Assumptions C15_release_old_refuted.
+
+(* --------------------------------------------------------------------------------------------------------------
+   The never-done check asked from inside a running test (scenario kind STest): setup / body / teardown, the test
+   having any number of failures recorded before (by a plugin, by addFailure, by a failed CHECK that left a test
+   function, by an earlier never-done report).  t_n = failures of the running test.
+   -------------------------------------------------------------------------------------------------------------- *)
+(* whatever the failure count n of the asking test: a pending designation is reported (one more failure, the head of
+   the list named, the test function left), an empty list changes nothing *)
+Theorem C15_check_in_test_any_count : forall f n,
+  match check_report f with
+  | Some r => tstep_gen false {| t_f := f; t_n := n |} (TOp Check)
+              = ({| t_f := f; t_n := n + 1 |}, Some (OCheckT n (n + 1) (Some r)), true)
+  | None => tstep_gen false {| t_f := f; t_n := n |} (TOp Check)
+              = ({| t_f := f; t_n := n |}, Some (OCheckT n n None), false)
+  end.
+Proof. exact check_in_test_any_count. Qed.
+Print Assumptions C15_check_in_test_any_count.
+
+(* the requests and checks of a test are those of the plain history of the events it carried out *)
+Theorem C15_test_is_plain_history : forall pre su bo td,
+  map strip (filter plain (run (STest pre su bo td))) = run_from st0 (ops_of (teff pre su bo td)).
+Proof. exact test_is_plain_history. Qed.
+Print Assumptions C15_test_is_plain_history.
+
+(* every check of the test reports iff, by counting that history, a designation still waits *)
+Theorem C15_test_never_done_reported : forall pre su bo td,
+  valid (STest pre su bo td) = true ->
+  check_flags (map strip (filter plain (run (STest pre su bo td)))) = expected_checks 0 [] (ops_of (teff pre su bo td)) 0.
+Proof. exact test_never_done_reported. Qed.
+Print Assumptions C15_test_never_done_reported.
+
+(* a report is exactly one more failure of the test, no report leaves the count alone *)
+Theorem C15_test_report_counts_once : forall pre su bo td, Forall count_exact (run (STest pre su bo td)).
+Proof. exact test_report_counts_once. Qed.
+Print Assumptions C15_test_report_counts_once.
+
+(* the failures recorded before the test starts change neither the events carried out nor any request / report *)
+Theorem C15_test_failures_before_irrelevant : forall pre pre' su bo td,
+  teff pre su bo td = teff pre' su bo td /\
+  map strip (run (STest pre su bo td)) = map strip (run (STest pre' su bo td)).
+Proof. exact test_failures_before_irrelevant. Qed.
+Print Assumptions C15_test_failures_before_irrelevant.
+
+(* the variant that reports nothing once the running test has a failure (run_mute): designate; FAIL; check in teardown *)
+Theorem C15_mute_when_failed_refuted : ~ mute_meets_spec_stmt.
+Proof. exact mute_refuted. Qed.
+Print Assumptions C15_mute_when_failed_refuted.
 
 (* --------------------------------------------------------------------------------------------------------------
    The pending-failure list of the model IS the source: LocationToFailAllocNode and the list-walking member functions of FailableMemoryAllocator as tools/cxx2heap.py regenerates them from TestMemoryAllocator.cpp on every run (gen/Gen_HeapC15.v; objects are blocks of cells, C15_HeapRep.v: node_cells / chain / fail_at; a source file name is an opaque integer fc f, fc injective and never 0; the allocations let through and the nodes obtained / released are ghost events), run on a heap that represents a model state, return what the model's should_fail / mstep return and leave a heap that represents the model's new state. The two int counters wrap at 32 bits in the source and not in the model: excluded by no_wrap and s_cur + 1 < 2^31 (ex_wrap_node, ex_wrap_cur in C15_HeapTie.v show the difference)
